@@ -222,7 +222,9 @@ class FusionEngineDecoder:
                     if (cls is not None and self._header.payload_size_bytes == cls.calcsize() and
                         self._warn_on_error >= self.WarnOnError.LIKELY):
                         print_func = _logger.warning
-                except (AttributeError, TypeError):
+                except Exception:
+                    # calcsize() is only consulted to choose a log level; variable-length message classes may raise
+                    # (e.g., construct SizeofError). Never let that escape on_data().
                     pass
 
                 print_func(e)
